@@ -247,6 +247,26 @@ pub fn describe<F: Flav>(sc: &Scenario, v: &Verdict) -> String {
     s
 }
 
+/// Hand-picked scenarios beyond the exhaustively enumerated two-call space: three threads around a ring of
+/// nodes, readers between two writers, two calls against one.  All involve only call pairs that are clean on the
+/// reference tree; each is explored with a schedule budget (a capped exploration is partial, not a verdict).
+pub fn targeted_scenarios() -> Vec<&'static str> {
+    vec![
+        "n=3 init=[(0, 1), (1, 2), (2, 0)] | disconnect(0,1) || disconnect(1,2) || disconnect(2,0)",
+        "n=3 init=[] | connect(0,1) || connect(1,2) || connect(2,0)",
+        "n=3 init=[] | try_connect(0,1) || try_connect(1,2) || try_connect(2,0)",
+        "n=3 init=[(0, 1), (1, 2), (2, 0)] | disconnect(0,1); connect(0,1) || disconnect(1,2); connect(1,2)",
+        "n=2 init=[(0, 1), (1, 0)] | walk(0) || walk(1) || connect(0,0)",
+        "n=2 init=[(0, 1), (1, 0)] | walk(0) || walk(1) || disconnect(0,1)",
+        "n=3 init=[(0, 1), (1, 2)] | q_deg(1); q_conn(1,2) || connect(0,2) || disconnect(0,1)",
+        "n=3 init=[(0, 1)] | connect(0,2); disconnect(0,1) || connect(1,2); q_deg(0)",
+        "n=2 init=[(0, 0), (0, 1)] | disconnect(0,0) || q_deg(0); walk(0); q_conn(0,0)",
+        "n=3 init=[(0, 1), (0, 2)] | disconnect(0,1) || disconnect(0,2) || walk(0)",
+        "n=3 init=[(1, 0), (2, 0)] | disconnect(1,0) || disconnect(2,0) || q_deg(0)",
+        "n=3 init=[(0, 1), (1, 2), (2, 0)] | isolate(0) || q_deg(1); walk(1) || q_deg(2); q_conn(2,0)",
+    ]
+}
+
 pub struct RunCfg {
     pub shapes: Vec<(Vec<usize>, usize)>, // (calls per thread, max init edges)
     pub budget: u64,
@@ -254,6 +274,7 @@ pub struct RunCfg {
     pub nshards: u64,
     pub stride: u64,
     pub emit_known: bool,
+    pub targeted: bool,
 }
 
 pub fn run<F: Flav>(pool: &Pool, rc: &RunCfg, rep: &mut Report)
@@ -328,6 +349,45 @@ where
         }
     }
     rep.count("enumerations_completed");
+    if rc.targeted {
+        let list = targeted_scenarios();
+        for (i, txt) in list.iter().enumerate() {
+            if (i as u64) % rc.nshards != rc.shard % rc.nshards.max(1) {
+                continue;
+            }
+            let Some(sc) = Scenario::parse(txt) else {
+                rep.inconclusive.push(format!("targeted scenario does not parse: {}", txt));
+                continue;
+            };
+            crate::core::watchdog::tick(|| format!("{} targeted {}", F::NAME, txt));
+            let saved = ck.budget;
+            ck.budget = 20_000;
+            let v = ck.verdict::<F>(&sc);
+            ck.budget = saved;
+            rep.count("targeted_scenarios");
+            rep.add("evaluations", v.perm.schedules + v.wp.schedules);
+            rep.add("schedules", v.perm.schedules + v.wp.schedules);
+            rep.add("lock_steps_scheduled", v.perm.lock_steps + v.wp.lock_steps);
+            if v.capped() {
+                rep.count("targeted_scenarios_budget_capped");
+            }
+            rep.distinct(fnv_str(&format!("{}|targeted|{}", F::NAME, txt)));
+            if let Some(m) = v.perm.inconsistent.as_ref().or(v.wp.inconsistent.as_ref()) {
+                rep.inconclusive.push(format!("explorer lock table disagreed with the real lock in {}: {}", txt, m));
+                continue;
+            }
+            if v.failing() {
+                let (msc, mv) = ck.minimise::<F>(&sc, &v);
+                let key = finding_key::<F>(&msc.canonical(), &mv);
+                rep.violation(
+                    "C17",
+                    key,
+                    format!("{} (found in the targeted scenario {})", describe::<F>(&msc, &mv), txt),
+                    json!({"kind":"conc","prop":"C17","flavour":F::NAME,"scenario":msc.text(),"found_in":txt}),
+                );
+            }
+        }
+    }
 }
 
 pub fn replay<F: Flav>(pool: &Pool, v: &serde_json::Value) -> bool
